@@ -101,5 +101,7 @@ def harnesses(tier):
             hs.append(Sort([k], 4))
         for a in kinds:
             for b in kinds:
-                hs.append(Sort([a, b], 3))
+                hs.append(Sort([a, b], 2))            # every ordered dtype pair
+        for a, b in [("f", "b"), ("f", "i"), ("i", "T"), ("T", "f"), ("D", "f"), ("U", "i"), ("b", "us"), ("O", "f")]:
+            hs.append(Sort([a, b], 3))                # three rows (ties on the first key + order on the second) for a selection
     return hs
